@@ -32,14 +32,14 @@ pub fn run() -> i32 {
         match real_encode(x.to_bits()) {
             Some(w) => {
                 n += 1;
-                if real_decode(w) != x.to_bits() || !real_is_normalised(w) {
+                if real_decode(w) != x.to_bits() || !(real_is_normalised(w) || (w >> 56) & 0x7f == 0) {
                     ok = false;
                 }
             }
             None => ok = false,
         }
     }
-    check(&format!("decode(encode(x)) == x and normalised for {} in-range doubles", n), ok);
+    check(&format!("decode(encode(x)) == x and normalised (or exponent field 0) for {} in-range doubles", n), ok);
     // 3. the repository's sample files: scan, decode, re-encode -> identical bytes (up to real re-normalisation)
     for (name, bytes) in crate::checks::c10::CORPUS.iter() {
         let recs = scan(bytes, false);
